@@ -333,8 +333,8 @@ def run_property(prop_id, tier, seed, nprocs=None, budget=None):
     for sig, v in sorted(merged["violations"].items()):
         if sig in known:
             known_seen.append({"signature": sig, "count": v["count"]})
-            print("KNOWN-FINDING: property=%s %s [%s] (seen %d times)"
-                  % (prop_id, known[sig].get("what", ""), sig, v["count"]))
+            print("KNOWN-FINDING: property=%s %s (seen %d times in this run)"
+                  % (prop_id, known[sig].get("what", sig).replace("\n", " "), v["count"]))
             continue
         path = os.path.join(REPLAY_DIR, "%s-%s.json" % (prop_id, sig_hash(sig)))
         with open(path, "w") as f:
